@@ -138,6 +138,17 @@ func (t c19Tree) materialise() string {
 	return d
 }
 
+// c19Prefixed asks the wrapped loader for prefix+name.
+type c19Prefixed struct {
+	jet.Loader
+	prefix string
+}
+
+func (l c19Prefixed) Exists(name string) bool { return l.Loader.Exists(l.prefix + name) }
+func (l c19Prefixed) Open(name string) (io.ReadCloser, error) {
+	return l.Loader.Open(l.prefix + name)
+}
+
 var c19EmbedTree = c19Tree{A: "dir", B: "file", AA: "file", AB: "dir"}
 
 func c19FSReplay(i int, raw json.RawMessage) Result {
@@ -146,9 +157,10 @@ func c19FSReplay(i int, raw json.RawMessage) Result {
 		return Result{Detail: "bad vector: " + err.Error()}
 	}
 	key := string(raw)
-	assignments := []string{"os", "http", "mixed", "mem", "memfirst"}
+	assignments := []string{"os", "os-slash", "http", "mixed", "mem", "memfirst"}
 	if len(v.Stack) == 1 && v.Stack[0] == c19EmbedTree {
-		assignments = append(assignments, "embed")
+		// the same embedded tree under several spellings of the loader's root
+		assignments = append(assignments, "embed", "embed-slash", "embed-dotslash", "embed-dot", "embed-unclean")
 	}
 	for _, asg := range assignments {
 		var loaders []jet.Loader
@@ -164,6 +176,9 @@ func c19FSReplay(i int, raw json.RawMessage) Result {
 			switch kind {
 			case "os":
 				loaders = append(loaders, jet.NewOSFileSystemLoader(t.materialise()))
+				content = append(content, "T["+t.id()+"]:")
+			case "os-slash":
+				loaders = append(loaders, jet.NewOSFileSystemLoader(t.materialise()+"/./"))
 				content = append(content, "T["+t.id()+"]:")
 			case "http":
 				l, err := httpfs.NewLoader(http.Dir(t.materialise()))
@@ -187,6 +202,19 @@ func c19FSReplay(i int, raw json.RawMessage) Result {
 				content = append(content, "T["+t.id()+"]:")
 			case "embed":
 				loaders = append(loaders, embedfs.NewLoader("embedfixture", embedFixture))
+				content = append(content, "EMBED:")
+			case "embed-slash":
+				loaders = append(loaders, embedfs.NewLoader("embedfixture/", embedFixture))
+				content = append(content, "EMBED:")
+			case "embed-dotslash":
+				loaders = append(loaders, embedfs.NewLoader("./embedfixture", embedFixture))
+				content = append(content, "EMBED:")
+			case "embed-unclean":
+				loaders = append(loaders, embedfs.NewLoader("embedfixture/a/..", embedFixture))
+				content = append(content, "EMBED:")
+			case "embed-dot":
+				// rooted at the embed.FS's own root: the templates are the files below /embedfixture
+				loaders = append(loaders, c19Prefixed{embedfs.NewLoader(".", embedFixture), "/embedfixture"})
 				content = append(content, "EMBED:")
 			}
 		}
@@ -230,6 +258,25 @@ func c19FSReplay(i int, raw json.RawMessage) Result {
 				if err != nil || got != want {
 					return Result{Sig: sig, Key: key, Observed: got, Expected: want,
 						Detail: fmt.Sprintf("[%s/%s] Exists(%q) is true but Open yields %q, %v; stored content is %q", asg, shape, p, got, err, want)}
+				}
+			}
+		}
+	}
+	// a name that spells the loader's own directory (or a sibling sharing its prefix) is a name like any other:
+	// it is looked up below the root, where nothing of that name exists
+	if len(v.Stack) == 1 {
+		t := v.Stack[0]
+		dir := t.materialise()
+		os.MkdirAll(dir+"-sib/a", 0o755)
+		os.WriteFile(dir+"-sib/b", []byte("SIB"), 0o644)
+		os.WriteFile(dir+"-sib/a/a", []byte("SIB"), 0o644)
+		l := jet.NewOSFileSystemLoader(dir)
+		for _, rel := range []string{"a", "b", "a/a", "a/b"} {
+			for _, name := range []string{dir + "/" + rel, dir + "-sib/" + rel} { // clean absolute names, as a Set hands them over
+				if l.Exists(name) {
+					return Result{Sig: map[string]interface{}{"loader": "os", "shape": "single-own-directory-in-name", "query_is_dir_somewhere": false}, Key: key,
+						Observed: true, Expected: false,
+						Detail: fmt.Sprintf("[os] Exists(%q) = true for a loader rooted at %q: there is no such file below the root", name, dir)}
 				}
 			}
 		}
